@@ -179,6 +179,7 @@ func (s *socket) onOpen() {
 		return
 	}
 	socket_log.Debug("readyState updated from %s to %s", "opening", "open")
+	vhook.Yield("socket.onOpen.open")
 
 	// sends an `open` packet
 	s.Transport().SetSid(s.id)
